@@ -71,9 +71,13 @@ def cmp_vars(b, st, depth=2):
 FLIP = {'Lt': 'Gt', 'Gt': 'Lt', 'Le': 'Ge', 'Ge': 'Le', 'Eq': 'Eq', 'Ne': 'Ne'}
 
 
-def requirement_holds(P, b, req):
+def requirement_holds(P, b, req, site=None):
+    """guard fact of a reviewed discharge.  `a||b`: either.  A variable name that no longer exists in the function (renamed) is
+    replaced by the names of the operands of the site itself."""
     import re
     from flow import call_matches
+    if '||' in req:
+        return any(requirement_holds(P, b, r, site) for r in req.split('||'))
     bodies = P.with_closures(b)
     kind, _, rest = req.partition(':')
     if kind == 'call':
@@ -105,11 +109,14 @@ def requirement_holds(P, b, req):
     if kind == 'cmp':
         op, _, var = rest.partition(':')
         var, _, const = var.partition(':')
+        wanted = {var}
+        if site is not None and not any(var in x.names.values() for x in bodies):
+            wanted = site.operand_names()       # the variable was renamed: the guard must then be about an operand of the site
         for x in bodies:
             for pos, st in x.iter_stmts():
                 if st['k'] == 'assign' and st['rv']['k'] == 'bin' and st['rv']['op'] in (op, FLIP.get(op)):
                     cv = cmp_vars(x, st)
-                    if var in cv and (not const or ('#' + const) in cv):
+                    if (wanted & cv) and (not const or ('#' + const) in cv):
                         return True
         return False
     return False
@@ -141,11 +148,24 @@ def run_ledger(C, P, rule, entry_ids, label):
             C.ok(rule, s.key(), d, sample={'site': s.key(), 'at': s.where(), 'discharge': d.split(':')[0]} if sum(n_auto.values()) % 40 == 1 else None)
             continue
         groups[(s.b.short, s.kind, s.desc)].append(s)
+    # rename tolerance: a group whose description is not in the table is matched with the table entries of the same function and
+    # kind whose description differs only in the names of local variables - if that pairing is unambiguous
+    canon_tab = defaultdict(list)
+    for (fn, kind, desc), ent in tab.items():
+        canon_tab[(fn, kind, PN.canon_desc(desc))].append((desc, ent))
+    for key in list(groups):
+        if key in tab:
+            continue
+        fn, kind, desc = key
+        cands = [(d, e) for d, e in canon_tab.get((fn, kind, PN.canon_desc(desc)), []) if (fn, kind, d) not in groups]
+        others = [k for k in groups if k != key and k not in tab and k[0] == fn and k[1] == kind and PN.canon_desc(k[2]) == PN.canon_desc(desc)]
+        if len(cands) == 1 and not others:
+            tab[key] = cands[0][1]
     for key, ss in sorted(groups.items()):
         ent = tab.get(key)
         for rank, s in enumerate(sorted(ss, key=lambda x: x.ordinal)):
             if ent and rank < ent[0]:
-                lost = [r for r in ent[3] if not requirement_holds(P, s.b, r)]
+                lost = [r for r in ent[3] if not requirement_holds(P, s.b, r, s)]
                 if lost:
                     C.fail(rule, s.key() + '|guard-lost', 'the reviewed discharge of this site relies on a guard that is no longer present in %s (%s): %s' % (s.b.short, ', '.join(lost), ent[1]), s.where())
                 elif ent[2] and rule.startswith('C02'):
